@@ -635,7 +635,7 @@ func runC15(c *core.Ctx) {
 		c.Check(okProc && nProc > 0, "process() receives a check result's event with its own error", "provenance", enq.Pos(),
 			"every process() call is in Enqueue's inserter task and passes (res.e, res.err) of one result record",
 			"process() is called with an event and an error that do not come from the same check result (or outside the inserter task)")
-		c.ExpectAtLeast("process() call sites", nProc, 2)
+		c.ExpectAtLeast("process() call sites", nProc, 1)
 
 		// Events.Metric is Num = len, Size = sum of e.Size()
 		mf := c10Inlined(c.Fn(c15EvMetric))
@@ -663,7 +663,8 @@ func runC15(c *core.Ctx) {
 		push := proc.CallsMatching(func(cs *core.CallSite) bool {
 			return cs.Name == c15Push && fieldNameOf(proc, cs.Recv()) == c15Proc+".buffer"
 		})
-		c.ExpectAtLeast("Released sites in process", len(rel), 2)
+		// (the two roles — failed check, far future — each have their own floor in C15.future)
+		c.ExpectAtLeast("Released sites in process", len(rel), 1)
 		c.ExpectAtLeast("PushEvent sites in process", len(push), 1)
 		all := append(append([]*core.CallSite{}, rel...), push...)
 		for _, cs := range all {
@@ -791,7 +792,38 @@ func runC15(c *core.Ctx) {
 			return ast.Unparen(c15Through(enq, e)) == ast.Expr(acq[0].Call)
 		})
 		ws := enq.CallsTo(c15WEnqueue)
-		c.ExpectAtLeast("worker Enqueue sites", len(ws), 2)
+		c.ExpectAtLeast("worker Enqueue sites", len(ws), 1)
+		// the two kinds of work — checking the batch, handing results to process() — run as worker tasks:
+		// every literal of Enqueue doing such work is (nested in) a literal handed to a worker Enqueue
+		tasks := map[*core.FuncInfo]bool{}
+		for _, w := range ws {
+			for i := range w.Call.Args {
+				if l := c10LitArg(enq, w.Call, i); l != nil {
+					tasks[l] = true
+				}
+			}
+		}
+		for _, role := range []struct{ what, callee, bad string }{
+			{"checking the batch", c15Pkg + ".EventCallback.CheckParentless", "the events of an acquired batch are never checked, processed or released"},
+			{"handing check results to process()", c15Proc + ".process", "check results are never handed to process(): the events are neither pushed nor released and keep their semaphore amount"},
+		} {
+			n := 0
+			for _, l := range c10AllLits(enq) {
+				sites := l.CallsTo(role.callee)
+				if len(sites) == 0 {
+					continue
+				}
+				n += len(sites)
+				top := l
+				for top.Parent != nil && top.Parent != enq {
+					top = top.Parent
+				}
+				c.Check(tasks[top], role.what+" runs as a worker task", "T6 provenance", sites[0].Pos(),
+					"the literal doing the work is the task handed to a worker pool's Enqueue",
+					"the literal of Enqueue "+role.what+" is not handed to a worker pool: "+role.bad)
+			}
+			c.ExpectAtLeast("sites "+role.what, n, 1)
+		}
 		// tasks only after a successful Acquire; a failed Acquire is reported
 		for _, w := range ws {
 			ok, wit := enq.GuardedBy(w.Pt, acquired)
@@ -904,7 +936,20 @@ func runC15(c *core.Ctx) {
 		// the workers waited for are really bound to this wait group and quit channel
 		newF := c15View(c.Fn(c15Pkg + ".New"))
 		wn := newF.CallsTo("utils/workers.New")
-		c.ExpectAtLeast("workers.New sites", len(wn), 2)
+		c.ExpectAtLeast("workers.New sites", len(wn), 1)
+		// every pool Enqueue hands a task to is one of those: created by New with workers.New
+		enq := c15View(c.Fn(c15Proc + ".Enqueue"))
+		for _, w := range enq.CallsTo(c15WEnqueue) {
+			pool := fieldNameOf(enq, w.Recv())
+			made := false
+			for _, a := range assignsToField(newF, pool) {
+				if pool != "" && a.RHS != nil && isCallTo(newF, c15Through(newF, a.RHS), "utils/workers.New") != nil {
+					made = true
+				}
+			}
+			c.Check(made, "pool "+short(pool)+" is created by New", "provenance", w.Pos(), "the worker pool that gets the task is built by workers.New in New (bound to wg and quit, see above)",
+				"Enqueue hands a task to a worker pool that New does not create with workers.New: Stop does not wait for its tasks")
+		}
 		for _, cs := range wn {
 			ok := len(cs.Call.Args) == 3
 			if ok {
